@@ -297,6 +297,14 @@ def run_case(case, seed):
             yt = sle.als(op, gt, bt, repeats=1, solver=solver) if meth == 'als' else sle.mals(op, gt, bt, repeats=1, solver=solver, threshold=thr, max_rank=mr)
             if meta_problem(yt) is None and list(yt.row_dims) == list(dims):
                 r.close(key + ':tiny-rhs:exact-at-max-rank', vec(yt) / sc_, xs, 1e-7, 'right-hand side scaled by %g' % sc_)
+        # ... and linearity in the operator: the same system with A scaled by 1e-8 (an operator in small units is not singular)
+        so_ = 1e-8
+        with r.op(key + ':tiny-operator:call'):
+            gt = tt_from(rand_cores(rng, dims, [1] * d, max_ranks(dims), c is True))
+            ot = so_ * op
+            yt = sle.als(ot, gt, b, repeats=1, solver=solver) if meth == 'als' else sle.mals(ot, gt, b, repeats=1, solver=solver, threshold=thr, max_rank=mr)
+            if meta_problem(yt) is None and list(yt.row_dims) == list(dims):
+                r.close(key + ':tiny-operator:exact-at-max-rank', vec(yt) * so_, xs, 1e-7, 'operator scaled by %g' % so_)
     # an exact solution whose bond singular values are graded (1, 1e-3, 1e-5) with threshold 1e-8: every retained ratio lies far
     # above the cut, so the solution must stay a fixed point up to the cut
     if meth == 'mals' and not binding and case['op'] == 'dense' and c in (False, True) and d >= 3 and thr != 0:
